@@ -493,10 +493,18 @@ class TextXVisitor(RRELVisitor):
             # haven't got any attributes and reference at least one non-match
             # rule.
             abstract = False
-            if rule.rule_name and cls.__name__ != rule.rule_name:
-                # Special case. Body of the rule is a single rule reference and
-                # the referenced rule is not match rule.
-                target_cls = metamodel[rule.rule_name]
+            # Special case. Body of the rule is a single rule reference: the
+            # PEG rule of this class is the referenced rule. It is
+            # recognized by its class (the referenced rule may have the same
+            # name in another grammar file) and the referenced class is taken
+            # from the rule itself as its name needs not be visible from the
+            # grammar file which is currently being loaded.
+            is_rule_alias = (
+                rule.rule_name and getattr(rule, "_tx_class", cls) is not cls
+            )
+            if is_rule_alias:
+                # ... and the referenced rule is not match rule.
+                target_cls = rule._tx_class
                 _determine_rule_type(target_cls)
                 abstract = target_cls._tx_type != RULE_MATCH
             else:
@@ -522,7 +530,7 @@ class TextXVisitor(RRELVisitor):
                 # done in each pass: with circular references the type of a
                 # referenced rule may be known only in a later pass.
                 inh_count = len(cls._tx_inh_by)
-                if rule.rule_name and cls.__name__ != rule.rule_name:
+                if is_rule_alias:
                     if rule._tx_class not in cls._tx_inh_by:
                         cls._tx_inh_by.append(rule._tx_class)
                 else:
